@@ -257,6 +257,11 @@ def run(tier, seed):
             for c in l0.calls("process_level0_extended_area"):
                 pf = ptr_form(l0, c.ops[1], base_is, symf)
                 ln = linform(l0, c.ops[2], symf)
+                if ln is None:
+                    # the length narrowed to the width of the header-length byte it is derived from: the same number under the guard checked next
+                    from ..lin import narrowed_difference
+                    nd = narrowed_difference(l0, c.ops[2])
+                    ln = linform(l0, nd, symf) if nd is not None else None
                 rep.check(rid, pf is not None and pf[1] == L(24, P=1) and ln == L(-22, hlen=1, P=-1), "level-0 extended area = header_len-22-P bytes @24+P", c.where(),
                           "got @%s len %s" % (pf[1] if pf else None, ln), function=l0.cname, obj="ext-area-slice")
                 guarded_site(rep, rid, ctx, c, [("header_level == 0", ("eq", ("load", ("field", HDR, "header_level", ANY)), 0)),
@@ -758,4 +763,7 @@ def run(tier, seed):
                           None if enabled == set(DOSLIKE) else "enabled for %s, not enabled for %s" % (sorted("0x%02x" % x for x in enabled - set(DOSLIKE))[:8],
                                                                                                      sorted("0x%02x" % x for x in set(DOSLIKE) - enabled)),
                           function=hf.cname, obj="os-types")
+        from .c13 import header_loops_terminate
+        from ..callgraph import CallGraph as _CG13
+        header_loops_terminate(rep, ctx, mod, _CG13(mod))
     return rep.finish(seed)
